@@ -125,8 +125,39 @@ class World:
         self.n_src += 1
         if backend == "polars":
             return pdt.Table(self.frames[tname], name=tname)
+        if backend in ("postgres", "mssql"):
+            return pdt.Table(self.dialect_table(tname, backend), pdt.SqlAlchemy(self.dialect_engine(backend)))
         assert backend == "sqlite"
         return pdt.Table(tname, pdt.SqlAlchemy(self.engine))
+
+    # compile-only dialects: a real Engine whose .dialect is SQLAlchemy's real PGDialect /
+    # MSDialect, bound to sqa.Table metadata, never connected
+    _dialect_engines: dict = {}
+
+    @classmethod
+    def dialect_engine(cls, backend: str):
+        if backend not in cls._dialect_engines:
+            eng = sqa.create_engine("sqlite://")
+            if backend == "postgres":
+                from sqlalchemy.dialects import postgresql
+
+                eng.dialect = postgresql.dialect()
+            else:
+                from sqlalchemy.dialects import mssql
+
+                eng.dialect = mssql.dialect()
+            cls._dialect_engines[backend] = eng
+        return cls._dialect_engines[backend]
+
+    def dialect_table(self, tname: str, backend: str):
+        key = (tname, backend)
+        if not hasattr(self, "_dtables"):
+            self._dtables = {}
+        if key not in self._dtables:
+            md = sqa.MetaData()
+            cols = [sqa.Column(cn, sqa.String if col_spec(tname, cn)["str"] else sqa.BigInteger) for cn in table_columns(tname)]
+            self._dtables[key] = sqa.Table(tname, md, *cols)
+        return self._dtables[key]
 
     def db_fingerprint(self):
         if not self.with_sql:
